@@ -64,7 +64,42 @@ def correspondence(tag, cos, shard=200):
     return sorted(mism), errors
 
 
+def gen_backlog(rng):
+    """a combining node with a backlog on all inputs but one, then the lagging input is disconnected
+    (zip must pair the whole backlog; combine_latest must drop the input's slot), then more data"""
+    k = rng.choice([2, 3, 3])
+    kind = rng.choice(["zip", "zip", "combine"])
+    ops = [["new", "pipe", []] for _ in range(k)]
+    ops.append(["new", kind, list(range(k))])
+    ops.append(["new", "sink", [k]])
+    lag = rng.randrange(k)
+    v = 0
+    if rng.random() < 0.5:
+        for i in range(k):
+            v += 1
+            ops.append(["emit", i, v])
+    rounds = rng.choice([1, 2, 3, 4])
+    for _ in range(rounds):
+        for i in range(k):
+            if i != lag:
+                v += 1
+                ops.append(["emit", i, v])
+    ops.append(["disconnect", lag, k])
+    for _ in range(rng.choice([0, 1, 2])):
+        for i in range(k):
+            if i != lag:
+                v += 1
+                ops.append(["emit", i, v])
+    if rng.random() < 0.3:
+        ops.append(["connect", lag, k])
+        v += 1
+        ops.append(["emit", lag, v])
+    return {"ops": ops}
+
+
 def gen(rng, tier):
+    if rng.random() < 0.2:
+        return gen_backlog(rng)
     ops = []
     kinds = []       # per index
     held = set()
@@ -171,30 +206,49 @@ def oracle(case, obs):
                 out.append(("C15", "C15/delivery-misses-edge", "step %d: %d emitted to %r, its downstreams were %r" % (step, n, got, exp)))
         if out:
             return out
-    # (3) combining nodes behave like a node over their current inputs fed what those inputs delivered since they were connected
-    hist = {}      # (dst) -> {src: [values since connected]}
+    # (3) zip behaves like a zip built over its CURRENT inputs fed what they delivered since they were connected:
+    #     no complete tuple may stay unpaired after any operation
+    fifo = {}      # zip node -> {upstream: [values waiting]}
+    nnodes = 0
     for step, (op, o) in enumerate(zip(case["ops"], obs)):
-        if op[0] == "new" and op[1] in ("zip", "combine"):
-            hist[len([1 for q in case["ops"][:step] if q[0] == "new"])] = {u: [] for u in op[2]}
-        if op[0] == "connect" and op[2] in hist and not o["raised"]:
-            hist[op[2]][op[1]] = []
-        if op[0] == "disconnect" and op[2] in hist and not o["raised"]:
-            hist[op[2]].pop(op[1], None)
-        if op[0] == "destroy" and op[1] in hist:
-            hist[op[1]] = {}
-        for (s, d, x) in o["deliv"]:
-            if d in hist and s in hist[d]:
-                hist[d][s].append(x)
-        for d, h in hist.items():
-            if kinds[d] != "zip" or not o["links"][d][0]:
-                continue
-            order = o["links"][d][1]
-            if not order or set(order) != set(h):
-                continue
-            emitted = [x for q in obs[:step + 1] for (s, dd, x) in q["deliv"] if s == d]
-            # a fresh zip over the current inputs fed these histories would have emitted min(len) tuples:
-            # compare only the COUNT of tuples since the last edit is too weak; check the backlog is not pairable
-            backlog = None
+        if op[0] == "new":
+            if op[1] == "zip":
+                fifo[nnodes] = {u: [] for u in op[2]}
+            nnodes += 1
+        if o["raised"]:
+            continue
+        if op[0] == "connect" and op[2] in fifo:
+            fifo[op[2]][op[1]] = []
+        if op[0] == "disconnect" and op[2] in fifo:
+            fifo[op[2]].pop(op[1], None)
+        if op[0] == "destroy" and op[1] in fifo:
+            fifo[op[1]] = {}
+        for (s_, d, x) in o["deliv"]:
+            if d in fifo and s_ in fifo[d]:
+                fifo[d][s_].append(x)
+            if s_ in fifo:
+                # the zip emitted one tuple downstream: one element of every current input was consumed
+                pass
+        # tuples emitted by each zip in this step (count each emission once, not once per downstream)
+        for zn, f in fifo.items():
+            downs_now = o["links"][zn][2] if zn < len(o["links"]) else []
+            emitted = [x for (s_, d, x) in o["deliv"] if s_ == zn]
+            ntuples = len(emitted) // max(1, len(set(d for (s_, d, x) in o["deliv"] if s_ == zn))) if emitted else 0
+            for _ in range(ntuples):
+                for u in f:
+                    if f[u]:
+                        f[u].pop(0)
+            if not downs_now:
+                # nobody listens: emissions cannot be observed; assume the zip paired what it could
+                while f and all(len(q) > 0 for q in f.values()):
+                    for u in f:
+                        f[u].pop(0)
+            alive = zn < len(o["links"]) and o["links"][zn][0]
+            if alive and f and all(len(q) > 0 for q in f.values()) and downs_now:
+                out.append(("C15", "C15/zip/wedged-backlog",
+                            "after step %d (%s) zip node %d holds a complete tuple on its current inputs %r that a zip built over them would have emitted"
+                            % (step, op, zn, {u: q[:3] for u, q in f.items()})))
+                return out
     return out
 
 
